@@ -226,6 +226,44 @@ func checkC11(c *Ctx) {
 		}
 		c.check(okO, "C11-ORD", n, "order restored from the key list", f.Pos(), "SetHashKeyOrder is applied when a key list was found", "field order is not restored from zKeyOrder")
 	}
+	// ---- C11-OWN: encoded bytes handed to the caller are not a view into a buffer that the next encoding reuses
+	{
+		n := 0
+		for _, f := range c.filesFuncs("jsonmsgp.go") {
+			res := f.Signature.Results()
+			if res.Len() == 0 {
+				continue
+			}
+			sl, ok := res.At(0).Type().Underlying().(*types.Slice)
+			if !ok {
+				continue
+			}
+			if b, ok := sl.Elem().Underlying().(*types.Basic); !ok || b.Kind() != types.Byte {
+				continue
+			}
+			for _, r := range returnsOf(f) {
+				for _, leaf := range phiLeaves(r.Results[0]) {
+					call, ok := leaf.(*ssa.Call)
+					if !ok {
+						continue
+					}
+					g := call.Call.StaticCallee()
+					if g == nil || fnPkgPath(g) != "bytes" || g.Name() != "Bytes" || len(call.Call.Args) == 0 {
+						continue
+					}
+					n++
+					_, local := call.Call.Args[0].(*ssa.Alloc)
+					c.check(local, "C11-OWN", fnName(f), "returned bytes come from a buffer of this call", r.Pos(),
+						"the buffer whose bytes are returned is a local of this call",
+						"the bytes returned are the contents of a buffer that outlives the call (a field or package-level helper): the next encoding overwrites them, so two encodings held at once decode to the same (or a garbled) value")
+				}
+			}
+		}
+		if n == 0 {
+			c.undecided("C11-OWN", "jsonmsgp.go", "returned bytes come from a buffer of this call", token.NoPos, "no encoder returning the bytes of a buffer found")
+		}
+	}
+
 	// ---- C11-ALL: the loop over the entries of a decoded map visits every entry
 	for _, n := range []string{"decodeGoToSexpHelper", "fillHashHelper"} {
 		f := c.fn(n)
